@@ -23,6 +23,8 @@ def gen_descs(g, tier):
             out.append(lin.gen_scn(g, "measure_int", R=R, D=D, diag=True))
             out.append(lin.gen_scn(g, "marginal", R=R, D=D))
             out.append(lin.gen_scn(g, "linsum", R=R, D=D))
+    # a diagonal density in high dimension: its determinant is outside the float range, its log-determinant ordinary
+    out.append(lin.gen_scn(g, "ctor", R=1, D=40, diag=True, highdim=40))
     # "also after the object has been multiplied": products with every factor kind, both update modes, with and
     # without a covariance cached by an earlier query, equal and unequal batch sizes > 1, weights g != 1
     for kind in ("general", "onerank", "linear", "constant"):
